@@ -110,6 +110,22 @@ func allBackends(c *ValCase) []int {
 	return out
 }
 
+// renameBackend gives backend i a new name (unless another backend has it) and re-points its logs.
+func renameBackend(c *ValCase, i int, name string) {
+	for k := range c.Backends {
+		if k != i && c.Backends[k].Name == name {
+			return
+		}
+	}
+	old := c.Backends[i].Name
+	c.Backends[i].Name = name
+	for k := range c.Logs {
+		if c.Logs[k].Backend == old {
+			c.Logs[k].Backend = name
+		}
+	}
+}
+
 func firstAny(ekus []string) int {
 	for i, e := range ekus {
 		if e == "Any" {
@@ -244,6 +260,22 @@ var validCatalogue = []entry{
 	{name: "unused-backend", targets: whole(func(c *ValCase) bool { return c.Multi }), apply: func(t *rapid.T, c *ValCase, _ int) {
 		k := len(c.Backends)
 		c.Backends = append(c.Backends, RawBackend{Name: fmt.Sprintf("spare%d", k), Spec: fmt.Sprintf("spare:%d", k)})
+	}},
+	{name: "backend-name-equals-a-spec", targets: allBackends, apply: func(t *rapid.T, c *ValCase, i int) {
+		// names must be unique among names and specs among specs - nothing forbids one backend's NAME to
+		// read like a backend's SPEC (its own or another's, earlier or later in the set)
+		j := rapid.IntRange(0, len(c.Backends)-1).Draw(t, "name-from-spec")
+		renameBackend(c, i, c.Backends[j].Spec)
+	}},
+	{name: "backend-spec-equals-a-name", targets: allBackends, apply: func(t *rapid.T, c *ValCase, i int) {
+		j := rapid.IntRange(0, len(c.Backends)-1).Draw(t, "spec-from-name")
+		v := c.Backends[j].Name
+		for k := range c.Backends {
+			if k != i && c.Backends[k].Spec == v {
+				return // would duplicate a spec
+			}
+		}
+		c.Backends[i].Spec = v
 	}},
 	{name: "backend-name-ignored-single", targets: func(c *ValCase) []int {
 		if c.Multi {
